@@ -358,3 +358,7 @@ mod bidi_tests {
         assert!(!satisfy_bidi_rule(&str_chars!(L, NSM, NSM, L, EN, NSM)));
     }
 }
+
+// Verification hook (see /verif/DESIGN.md): compiled only by `cargo kani` or with `--cfg precis_verif`.
+#[cfg(any(kani, precis_verif))]
+include!(concat!(env!("PRECIS_VERIF_DIR"), "/kani/incrate/bidi.rs"));
